@@ -1,4 +1,4 @@
-"""C06 (replay-cache half): the record of recent traffic never misses inside its bounds, never a false positive (DESIGN.md 7/C06)."""
+"""C06: replayed handshakes are rejected without a reply; the record of recent traffic never misses inside its bounds, never a false positive (DESIGN.md 7/C06)."""
 from vlib import run_pair
 
 PID = "C06"
@@ -7,7 +7,9 @@ ASSUMPTIONS = [
     "a signature is the FNV-64a hash of the 16 presented bytes and is treated as the identity of those bytes (a 2^-64 collision is outside the model)",
     "all time.Now()/time.Since readings of one IsDuplicate call are one instant (the call holds the cache mutex; under Go's faketime runtime the clock does not move while a goroutine runs)",
     "the model describes pkg/replay/replay.go with fixes/C06-replay-tag-overwrite.diff applied; the function as found at the pinned commit is kept as is_duplicate_v0 with its refutation witness",
-    "this check covers the cache; the end-to-end statement (a replayed handshake draws no reply) is checked by the network-simulator driver",
+    "end-to-end half: C06_replay_rejected_tcp/_udp are the front-door model of model/ServerFront.v (C05) running on the concrete cache with the process-wide parameters; their only premise besides the scenario is that user discovery tries registered keys only; ciphers are arbitrary functions, so the copy is refused whether or not it decrypts",
+    "the replay scenarios on the real server are run by the C05 driver in replay mode (harness/cmd/c05 -mode replay, oracle only): recorded genuine sessions of both users on simnet under virtual time, replayed on new TCP connections (whole client-to-server stream, every prefix at a segment boundary, first segment alone, header alone, header+1, first segment minus one byte) and as UDP datagrams from another source address (first datagram, all datagrams), at +0/+30/+119/+239 s inside the cache's retention and +400 s (+800 s thorough) after it, with the original still open or already closed, each time concurrently with a fresh genuine client; zero bytes/datagrams to the replayer, no accepted session, genuine transfers intact, and the cache must still hold the signature inside 360 s",
+    "UDP replays from the SAME source address are outside the property (documented retransmission allowance of the tag rule); the driver reports what happens in report.json notes",
     "exhaustive enumerations are up to renaming of signatures and of non-empty tags (the cache treats them symmetrically: map keys and string equality)",
 ]
 
@@ -20,8 +22,13 @@ def _parts(ctx, caps):
     return res
 
 
+def _e2e(ctx):
+    # end-to-end replay scenarios: the C05 driver in replay mode (oracle only; failure sigs start with "replay-")
+    return run_pair(ctx, "c05", PID, None, faketime=True, extra_args=["-mode", "replay"], subdir="c05replay")
+
+
 def run(ctx):
-    res = [run_pair(ctx, "c06", PID, MODEL_VOS, faketime=True)]
+    res = [run_pair(ctx, "c06", PID, MODEL_VOS, faketime=True), _e2e(ctx)]
     if ctx.tier == "thorough":
         res += _parts(ctx, ["1,2", "3,4"])
     return res
@@ -32,7 +39,7 @@ def search(ctx):
     return res
 
 MANIFEST = dict(
-    text="Theorems over the Replay model (two generations signature->tag, rotation by size and by time, expiry of both, tag rule) proved for all histories: a duplicate is reported only for a signature presented before; a signature accepted at t0 is answered by exactly the tag rule against its original tag at every t1 < t0 + interval after fewer than capacity other distinct signatures; retention 3 x KeyRefreshInterval covers the usable life of a key slot and of the timestamp. Constants of the two process-wide caches regenerated from /repo; the real ReplayCache is run under faketime on enumerated and generated histories, every result and state compared with the extracted model and judged against an ideal set.",
+    text="Theorems over the Replay model (two generations signature->tag, rotation by size and by time, expiry of both, tag rule) proved for all histories: a duplicate is reported only for a signature presented before; a signature accepted at t0 is answered by exactly the tag rule against its original tag at every t1 < t0 + interval after fewer than capacity other distinct signatures; retention 3 x KeyRefreshInterval covers the usable life of a key slot and of the timestamp. Constants of the two process-wide caches regenerated from /repo; the real ReplayCache is run under faketime on enumerated and generated histories, every result and state compared with the extracted model and judged against an ideal set. End to end: two theorems state that the server front-door model on this cache refuses a byte-exact copy of an accepted first segment (TCP: whole stream, any prefix containing the header, first segment alone; UDP: from another source address) inside the bounds with no output and no session whether or not it decrypts; the real server on an in-memory network under virtual time is attacked with replays of recorded sessions on both transports across and after the validity window.",
     note="Signatures are treated as the identity of the hashed bytes (FNV-64a collisions outside the model). The pinned code let a replayer take over the stored tag of an entry (refutation theorem + witness kept in the corpus); fixed by fixes/C06-replay-tag-overwrite.diff.",
-    technique="Coq proof (two-phase invariant over histories) + differential run of the extracted model against pkg/replay under Go faketime",
+    technique="Coq proof (two-phase invariant over histories; front-door model instantiated with the concrete cache) + differential run of the extracted model against pkg/replay under Go faketime + replay attacks on the real server on simnet (C05 driver, replay mode)",
 )
